@@ -7,6 +7,7 @@ import (
 	"image/color"
 	"image/jpeg"
 	"image/png"
+	"path/filepath"
 	"sync"
 	"sync/atomic"
 	"testing"
@@ -18,6 +19,7 @@ import (
 	"verif/internal/ev"
 	"verif/internal/gen"
 	"verif/internal/ld"
+	"verif/internal/src"
 )
 
 func TestMain(m *testing.M) { ev.Main(m, "C05", "exploration") }
@@ -77,8 +79,18 @@ func checkLevel(f gen.File, full bool) (kind, what string) {
 		atomic.AddInt64(&unconfirmed, 1)
 	}
 loaders:
-	for _, name := range names {
+	for ni, name := range names {
 		o := ld.Run(name, bytes.NewReader(f.Data))
+		if full {
+			// the same file from a standard reader of another dynamic type, positioned after a container
+			// prefix: the reported metadata must be the same
+			h := int(ev.Hash(f.Data) % 997)
+			kind := src.StdKinds[(h+ni)%len(src.StdKinds)]
+			prefix := []int{0, 1, 27, 4096}[(h/7)%4]
+			if o2 := ld.RunStd(name, kind, prefix, f.Data, filepath.Join(ev.Root(), "out", "run", "C05")); !ld.Same(o, o2) {
+				return f.Format + "/reader-type", fmt.Sprintf("%s loader on a %s positioned after %d prefix bytes: %s; from bytes.Reader at offset 0: %s (%s)", name, kind, prefix, o2, o, f.Desc)
+			}
+		}
 		k := f.Format + "/"
 		switch {
 		case o.Panic != "":
